@@ -24,19 +24,83 @@ def scrambled_tables():
     return err, sig, af, sock, 42
 
 
+def bsdlike_tables():
+    """A BSD-family host that is not macOS: Darwin's errno numbering up to 81 (EFTYPE = 79 included), FreeBSD's above."""
+    err, sig, af, sock, sol = darwin_tables()
+    err = {k: v for k, v in err.items() if k <= 81}
+    err.update({82: 'EIDRM', 83: 'ENOMSG', 84: 'EOVERFLOW', 85: 'ECANCELED', 86: 'EILSEQ', 87: 'ENOATTR', 88: 'EDOOFUS',
+                89: 'EBADMSG', 90: 'EMULTIHOP', 91: 'ENOLINK', 92: 'EPROTO', 93: 'ENOTCAPABLE', 94: 'ECAPMODE',
+                95: 'ENOTRECOVERABLE', 96: 'EOWNERDEAD', 97: 'EINTEGRITY'})
+    return err, sig, af, sock, sol
+
+
+ENV_READS = set()
+
+
+class RecordingEnviron:
+    """os.environ wrapped by a recording proxy (writes go through to the real environment, so TZ / tzset keep working):
+    which variables does code of the repository look at?  Third-party libraries read their own documented switches
+    (NO_COLOR, FORCE_COLOR, TERM ...); only direct readers inside the repository are recorded."""
+
+    def __init__(self, real):
+        self._real = real
+
+    def _note(self, key):
+        f = sys._getframe(2)
+        while f is not None and f.f_code.co_filename.endswith(('/os.py', '/_collections_abc.py')):
+            f = f.f_back          # os.getenv() and the mapping mix-ins: the reader is their caller
+        if f is not None:
+            name = f.f_code.co_filename
+            if '/pykdebugparser/' in name and '/verif/' not in name and '/site-packages/' not in name:
+                ENV_READS.add(str(key))
+
+    def __getitem__(self, key):
+        self._note(key)
+        return self._real[key]
+
+    def get(self, key, default=None):
+        self._note(key)
+        return self._real.get(key, default)
+
+    def __contains__(self, key):
+        self._note(key)
+        return key in self._real
+
+    def __setitem__(self, key, value):
+        self._real[key] = value
+
+    def __delitem__(self, key):
+        del self._real[key]
+
+    def __iter__(self):
+        return iter(self._real)
+
+    def __len__(self):
+        return len(self._real)
+
+    def __getattr__(self, name):
+        return getattr(self._real, name)
+
+
 def install(host):
+    os.environ = RecordingEnviron(os.environ)        # os.getenv() looks the name up in the os module: recorded too
     if host == 'real':
         return
     # import everything third-party / stdlib that looks at the platform before the platform is disguised
-    import ctypes, datetime, plistlib, enum, errno, signal, socket, time, locale  # noqa
+    import ctypes, datetime, plistlib, enum, errno, signal, socket, time, locale, tempfile, shutil, subprocess  # noqa
+    import click.testing  # noqa
     import construct, pygments, pygments.lexers, pygments.formatters, termcolor, click  # noqa
-    err, sig, af, sock, sol = darwin_tables() if host == 'darwin' else scrambled_tables()
+    err, sig, af, sock, sol = darwin_tables() if host == 'darwin' else bsdlike_tables() if host == 'bsdlike' else scrambled_tables()
     errno.errorcode.clear()
     errno.errorcode.update(err)
+    for code, name in err.items():
+        if name.startswith('E') and name[1:2].isupper():
+            setattr(errno, name, code)      # e.g. errno.EFTYPE on the BSD-shaped hosts (names the real host lacks)
     signal.Signals = enum.IntEnum('Signals', {v: k for k, v in sig.items()})
     socket.AddressFamily = enum.IntEnum('AddressFamily', {v: k for k, v in af.items()})
     socket.SocketKind = enum.IntEnum('SocketKind', {v: k for k, v in sock.items()})
     socket.SOL_SOCKET = sol
+    signal.NSIG = {'darwin': 32, 'bsdlike': 129}.get(host, 200)      # number of signals: 32 Darwin, 65 Linux, 129 FreeBSD
     os.strerror = lambda code: 'host error text %d' % code
     sys.platform = 'darwin' if host == 'darwin' else 'freebsd13'
     os.environ['TZ'] = 'America/Los_Angeles' if host == 'darwin' else 'Asia/Kolkata'
@@ -88,6 +152,9 @@ def workload(seed):
                                            (2, 2048), (2, 2049), (2, 524288), (30, 524289), (1 << 31, 1)]}
     out['socketpair_unlisted'] = {f'{a},{k}': render('BSC_socketpair', (a, k, 0, 0x99), (47, 0, 0, 0))
                                   for a, k in [(26, 1), (42, 2), (2, 2048)]}
+    # ioctl request words with every kind of group byte (letters, control characters, the upper half)
+    out['ioctl_groups'] = {hex(g): render('BSC_ioctl', (3, 0x80040000 | (g << 8) | 1, 0, 0), (0, 0, 0, 0))
+                           for g in (0x00, 0x0a, 0x20, 0x27, 0x3f, 0x5c, 0x74, 0x7f, 0x80, 0xa0, 0xe9, 0xf4, 0xff)}
     levels = [D.SOL_SOCKET, 0, 1, 6, 17, 41, 42, 0xfffe]
     opts = sorted(D.SO_OPTIONS)
     out['setsockopt'] = {f'{l},{o}': render('BSC_setsockopt', (3, l, o, 4), (0, 0, 0, 0)) for l in levels for o in opts[:12]}
@@ -194,4 +261,5 @@ if __name__ == '__main__':
     host, seed = sys.argv[1], int(sys.argv[2])
     install(host)
     res = workload(seed)
+    res['_env_reads'] = sorted(ENV_READS)
     json.dump(res, sys.stdout)
